@@ -48,8 +48,13 @@ META = {
         "raises on any payload (C27_matcher_never_raises; the check is evaluated on every case); (4) C27_compile_total. "
         "The full statement is REFUTED for the code as found by six vm_compute witnesses (C27_*_refuted_*), each reproduced "
         "on the real code: one (falsy constant attribute) was fixed in /repo during the build (19f27a5), five are listed known "
-        "findings with proposed fix diffs. C27_rewrite_equiv is NOT proved in general: rewrite equivalence rests on the "
-        "instruction-level correspondence, on the refutation witnesses, and on a test of the repaired model on every case. "
+        "findings (all repaired in /repo meanwhile). (5) C27_rewrite_equiv_partial + C27_no_match_equiv, for every configuration with "
+        "pdl_interp.erase and type-range handling (C27-4, C27-5): under the match side conditions and the executable static check "
+        "rewrite_static_ok (evaluated on every case), if the direct application rewrites the payload the converted matcher + "
+        "rewriter produce exactly the same payload, and no match stays no match; proved by a statement-by-statement simulation "
+        "(C27_rewriter_simulates_direct_rewrite). Left open: the direction in which the direct rewrite raises (ill-typed "
+        "rewrites) and replace-with-operation for a root without result types: there the evidence is the correspondence and a "
+        "model test. "
         "Tie: hand-written model with one flag per repair (probed on /repo at every run) vs the real code: conversion output "
         "compared instruction by instruction, one match_and_rewrite of both real paths at every operation of generated and "
         "corpus payloads compared with the model (outcome + resulting IR)."),
@@ -67,8 +72,9 @@ META = {
         "results for a root without results (ill-typed patterns on which the two paths differ: IndexError / ValueError vs "
         "null value / erase)."),
 }
-COQ_TARGETS = ["C27/Enc.vo", "C27/ProofsChain.vo", "C27/ProofsOrder.vo", "C27/ProofsMatch.vo", "C27/ProofsGuard.vo", "C27/ProofsTotal.vo", "C27/Proofs.vo", "Props/C27.vo"]
-REQ = ["C27.Model", "C27.Enc", "C27.ProofsGuard"]
+COQ_TARGETS = ["C27/Enc.vo", "C27/ProofsChain.vo", "C27/ProofsOrder.vo", "C27/ProofsMatch.vo", "C27/ProofsGuard.vo", "C27/ProofsTotal.vo", "C27/Proofs.vo", "C27/ProofsEnv.vo", "C27/ProofsRewrite.vo",
+               "C27/ProofsRewriteTop.vo", "Props/C27.vo"]
+REQ = ["C27.Model", "C27.Enc", "C27.ProofsGuard", "C27.ProofsRewriteTop"]
 ASSUMPTIONS = [
     "match theorem: the side conditions of Proofs.match_side_conditions (truthy constants or repair C27-1; no name in both "
     "attribute dictionaries or C27-6; well-formed SSA payload and single-result pdl.result edges or C27-2; every "
@@ -934,12 +940,19 @@ def impl_convert(case):
     does not pass the check shows up as a divergence"""
     V = vocab(case)
     d = _red(dump_conversion(pattern_text(case["p"], V), V))
-    return [d, 1 if d[0] == 0 else 0]
+    ok = 1 if d[0] == 0 else 0
+    # third slot: the static hypothesis of C27_rewrite_equiv_partial (rewrite_static_ok) is expected to hold for every
+    # pattern that converts, except the one shape the theorem leaves out: pdl.replace-with-operation for a root
+    # that declares no result types
+    p = case["p"]
+    left_out = (not p["root"]["rtys"]) and any(s[0] == "replace_op" for s in p["rw"])
+    return [d, ok, 1 if ok and not left_out else 0]
 
 
 def coq_convert(case):
     fx, p = coq_fixes(FX), coq_pattern(case["p"])
-    return f"L (cons (c27_convert {fx} {p}) (cons (sB (compile_guarded {fx} {p})) nil))"
+    return (f"L (cons (c27_convert {fx} {p}) (cons (sB (compile_guarded {fx} {p})) "
+            f"(cons (sB (rewrite_static_ok {fx} {p})) nil)))")
 
 
 def impl_apply(case):
@@ -1517,7 +1530,10 @@ def run(ctx: Ctx):
         bad = [(c, r) for c, r in zip(sample, res) if any(d != cc for d, cc in r)]
         applied = sum(1 for r in res if any(d[0] == 1 for d, _ in r))
         ctx.coverage["repaired_model_test"] = {
-            "what": "model only, all repair flags true: pdl_apply = interp_apply(compile) at every payload operation",
+            "what": ("TEST, model only, all repair flags true: pdl_apply = interp_apply(compile) at every payload operation; "
+                     "C27_rewrite_equiv_partial / C27_no_match_equiv prove this when the direct application rewrites or does "
+                     "not match; the test additionally covers the cases the theorems leave out (direct application raises, "
+                     "re-used pdl.result values, replace-with-operation for a root without result types)"),
             "cases": len(sample), "cases_with_a_rewrite": applied, "disagreements": len(bad),
             "first_disagreement": to_jsonable(bad[0]) if bad else None}
     except ModelUnavailable as e:
